@@ -64,12 +64,13 @@ func (j stateJSON) Coq() string {
 }
 
 type ReloadCase struct {
-	Comp    string    `json:"comp"`
-	KeyID   string    `json:"key_id"`
-	NoPath  bool      `json:"no_path,omitempty"`
-	Initial []Part    `json:"initial"`
-	New     *Content  `json:"new"`
-	Oracle  *Analysis `json:"oracle"`
+	Comp     string    `json:"comp"`
+	KeyID    string    `json:"key_id"`
+	Password string    `json:"password,omitempty"`
+	NoPath   bool      `json:"no_path,omitempty"`
+	Initial  []Part    `json:"initial"`
+	New      *Content  `json:"new"`
+	Oracle   *Analysis `json:"oracle"`
 }
 
 type reloadObs struct {
@@ -122,6 +123,14 @@ func reloadCorpus(comp string) []ReloadCase {
 		mk("", &Content{Parts: []Part{{Fix: "ec256"}}, Mut: "missing", Missing: true}),
 		mk("", &Content{Parts: []Part{{Fix: "ec256enc"}, {Fix: "cert_ec256"}, {Fix: "cert_inter"}, {Fix: "cert_root"}}, Mut: "none"}),
 		mk("", &Content{Parts: []Part{{Fix: "rsa4096"}, {Fix: "ec256pub"}}, Mut: "none"}),
+	}
+
+	// every key fixture (every size) alone, and as a second entry behind a supported key with certificate
+	for _, k := range AllKeys() {
+		cs = append(cs,
+			mk("", &Content{Parts: []Part{{Fix: k}}, Mut: "none"}),
+			mk("", &Content{Parts: []Part{{Fix: "ec256"}, {Fix: "cert_ec256"}, {Fix: "cert_inter"}, {Fix: "cert_root"}, {Fix: k, Kid: "second"}}, Mut: "none"}),
+			mk("second", &Content{Parts: []Part{{Fix: "ec256"}, {Fix: k, Kid: "second"}}, Mut: "none"}))
 	}
 
 	return cs
@@ -188,17 +197,25 @@ func RunReload(t *testing.T, comp string, create func(path, keyID, password stri
 		r := root.Fork(uint64(1000000 + i))
 		c.Initial = initialFor(r, c.KeyID, needCert)
 
+		// the configured key store password: mostly the one the encrypted fixture uses
+		pw := Password
+		if r.Chance(8) {
+			pw = vf.Pick(r, []string{"wrong", ""})
+		}
+
+		c.Password = pw
+
 		in := NewInterner()
 		(&Content{Parts: c.Initial, Mut: "none"}).WriteTo(path)
-		Analyse(in, Compose(c.Initial), Password)
+		Analyse(in, Compose(c.Initial), pw)
 
-		cmp, err := create(path, c.KeyID, Password)
+		cmp, err := create(path, c.KeyID, pw)
 		if err != nil {
 			t.Fatalf("case %d: initial load failed: %v", i, err)
 		}
 
 		pre := cmp.State().intern(in)
-		c.Oracle = Analyse(in, c.New.Bytes(), Password)
+		c.Oracle = Analyse(in, c.New.Bytes(), pw)
 
 		if c.Oracle.Cyclic {
 			continue // must not be run in-process (C19-F6); the ks stream has the witness in a child process
@@ -241,6 +258,10 @@ func RunReload(t *testing.T, comp string, create func(path, keyID, password stri
 		tags := append(c.Oracle.Tags(), "comp="+comp, "mut="+c.New.Mut, "out="+strings.SplitN(o.Outcome, ":", 2)[0])
 		if c.KeyID != "" {
 			tags = append(tags, "key_id")
+		}
+
+		if pw != Password {
+			tags = append(tags, "wrong-password")
 		}
 
 		if i < nsys {
